@@ -45,6 +45,24 @@ def run(tier, seed):
         if not x["bpos"]:
             v.violation("form factor of %s has a non-positive exponent coefficient b_i" % el, desc)
         c = coef[el]
+        if x["Z"] % 2 == 1:
+            # (for every other element BEFORE anything else is asked about it: what the first call leaves behind must not colour later ones)
+            # integer-typed arguments: the literal 0 (forward scattering, f = Z), 1, 2, numpy integers, an integer grid
+            for sint in (np.float32(0.5), np.array([0.25, 1.5], dtype=np.float32), 0, 1, 2, np.int64(0), np.int32(1), np.arange(3), [0, 1, 2], np.uint8(1), np.uint16(2),
+                         np.arange(3, dtype=np.uint32)):
+                try:
+                    got = np.asarray(structure.FormFactor(el, sint if not isinstance(sint, list) else np.array(sint)), dtype=float)
+                except Exception as ex:
+                    v.violation("FormFactor(%s, %r) raised %r" % (el, sint, ex), desc)
+                    break
+                nev += 1
+                sv = np.asarray(sint, dtype=float)
+                want = sum(c[i] * np.exp(-c[i + 4] * sv * sv) for i in range(4)) + c[8]
+                rel = 1e-9 if not (hasattr(sint, "dtype") and sint.dtype == np.float32) else 1e-5
+                if got.shape != np.shape(want) or not np.all(np.isfinite(got)) or np.abs(got - want).max() > rel * max(1.0, float(np.abs(want).max())):
+                    v.violation("FormFactor(%s, %r) = %s for an integer-typed argument, sum a_i exp(-b_i s^2) + c = %s" %
+                                (el, sint, got.tolist(), np.asarray(want).tolist()), desc)
+                    break
         vals = []
         bad = None
         for s in grid[:: (1 if not x["monotone"] or tier == "thorough" else 10)]:
@@ -58,22 +76,23 @@ def run(tier, seed):
         if bad:
             v.violation(bad, desc)
             continue
-        # integer-typed arguments: the literal 0 (forward scattering, f = Z), 1, 2, numpy integers, an integer grid
-        for sint in (0, 1, 2, np.int64(0), np.int32(1), np.arange(3), [0, 1, 2], np.uint8(1), np.uint16(2), np.arange(3, dtype=np.uint32),
-                     np.float32(0.5), np.array([0.25, 1.5], dtype=np.float32)):
-            try:
-                got = np.asarray(structure.FormFactor(el, sint if not isinstance(sint, list) else np.array(sint)), dtype=float)
-            except Exception as ex:
-                v.violation("FormFactor(%s, %r) raised %r" % (el, sint, ex), desc)
-                break
-            nev += 1
-            sv = np.asarray(sint, dtype=float)
-            want = sum(c[i] * np.exp(-c[i + 4] * sv * sv) for i in range(4)) + c[8]
-            rel = 1e-9 if not (hasattr(sint, "dtype") and sint.dtype == np.float32) else 1e-5
-            if got.shape != np.shape(want) or not np.all(np.isfinite(got)) or np.abs(got - want).max() > rel * max(1.0, float(np.abs(want).max())):
-                v.violation("FormFactor(%s, %r) = %s for an integer-typed argument, sum a_i exp(-b_i s^2) + c = %s" %
-                            (el, sint, got.tolist(), np.asarray(want).tolist()), desc)
-                break
+        if x["Z"] % 2 == 0:
+            # integer-typed arguments: the literal 0 (forward scattering, f = Z), 1, 2, numpy integers, an integer grid
+            for sint in (0, 1, 2, np.int64(0), np.int32(1), np.arange(3), [0, 1, 2], np.uint8(1), np.uint16(2), np.arange(3, dtype=np.uint32),
+                         np.float32(0.5), np.array([0.25, 1.5], dtype=np.float32)):
+                try:
+                    got = np.asarray(structure.FormFactor(el, sint if not isinstance(sint, list) else np.array(sint)), dtype=float)
+                except Exception as ex:
+                    v.violation("FormFactor(%s, %r) raised %r" % (el, sint, ex), desc)
+                    break
+                nev += 1
+                sv = np.asarray(sint, dtype=float)
+                want = sum(c[i] * np.exp(-c[i + 4] * sv * sv) for i in range(4)) + c[8]
+                rel = 1e-9 if not (hasattr(sint, "dtype") and sint.dtype == np.float32) else 1e-5
+                if got.shape != np.shape(want) or not np.all(np.isfinite(got)) or np.abs(got - want).max() > rel * max(1.0, float(np.abs(want).max())):
+                    v.violation("FormFactor(%s, %r) = %s for an integer-typed argument, sum a_i exp(-b_i s^2) + c = %s" %
+                                (el, sint, got.tolist(), np.asarray(want).tolist()), desc)
+                    break
         # array-valued argument: same values, and the caller's array is left alone (a reused s grid must stay an s grid)
         sg_ = np.array(grid[::100], dtype=float)
         keep = sg_.copy()
